@@ -115,7 +115,7 @@ def compare_op(fn, left_word, right_word, what):
     """operator of the first comparison in fn whose left side mentions left_word and right side right_word"""
     for node in ast.walk(fn):
         if isinstance(node, ast.Compare) and len(node.ops) == 1:
-            if _mentions(node.left, left_word) and _mentions(node.comparators[0], right_word):
+            if (left_word is None or _mentions(node.left, left_word)) and _mentions(node.comparators[0], right_word):
                 op = CMP.get(type(node.ops[0]))
                 if op:
                     return op
@@ -147,13 +147,20 @@ def self_attr_assign(fn, attr):
 def fnv_consts(fn, what):
     """(offset, multiplier, prime) of `hval = (OFF + (MULT * seed)) & MASK` and `<x>_prime = PRIME`"""
     off = mult = prime = maskname = None
+    masked = None
     for node in ast.walk(fn):
         if isinstance(node, ast.Assign) and len(node.targets) == 1 and isinstance(node.targets[0], ast.Name):
             name = node.targets[0].id
-            if name == "hval" and isinstance(node.value, ast.BinOp) and isinstance(node.value.op, ast.BitAnd):
-                inner = node.value.left
-                if isinstance(node.value.right, ast.Name):
-                    maskname = node.value.right.id
+            if name == "hval" and isinstance(node.value, ast.BinOp) and isinstance(node.value.op, (ast.BitAnd, ast.Add)):
+                if isinstance(node.value.op, ast.BitAnd):
+                    masked = True
+                    inner = node.value.left
+                    if isinstance(node.value.right, ast.Name):
+                        maskname = node.value.right.id
+                else:
+                    # `hval = OFF + (MULT * seed)` without the mask
+                    masked = False
+                    inner = node.value
                 if isinstance(inner, ast.BinOp) and isinstance(inner.op, ast.Add):
                     if isinstance(inner.left, ast.Constant):
                         off = inner.left.value
@@ -170,9 +177,11 @@ def fnv_consts(fn, what):
             for st in node.body:
                 if isinstance(st, ast.AugAssign) and isinstance(st.target, ast.Name) and st.target.id == "hval":
                     order.append(type(st.op).__name__)
-    if None in (off, mult, prime, maskname) or order != ["BitXor", "Mult", "BitAnd"]:
+                    if isinstance(st.op, ast.BitAnd) and isinstance(st.value, ast.Name) and maskname is None:
+                        maskname = st.value.id  # the loop's mask, when the initialisation has none
+    if None in (off, mult, prime, maskname, masked) or order != ["BitXor", "Mult", "BitAnd"]:
         raise ExtractError(f"fnv shape not recognised: {what} ({off},{mult},{prime},{maskname},{order})")
-    return off, mult, prime, maskname
+    return off, mult, prime, maskname, masked
 
 
 FIELD = {"Q": "u64", "q": "i64", "I": "u32", "i": "i32", "f": "f32", "B": "u8", "L": "u64"}
@@ -240,12 +249,12 @@ def _extract_into(repo, facts, attempt):
     for fn_name, tag in [("fnv_1a", "fnv64"), ("fnv_1a_32", "fnv32")]:
 
         def fnv(fn_name=fn_name):
-            off, mult, prime, maskname = fnv_consts(_find_def(hashes, None, fn_name), fn_name)
+            off, mult, prime, maskname, masked = fnv_consts(_find_def(hashes, None, fn_name), fn_name)
             if maskname not in consts:
                 raise ExtractError(f"{fn_name}: mask {maskname}")
-            return [("Nat", off), ("Nat", mult), ("Nat", prime), ("Nat", consts[maskname])]
+            return [("Nat", off), ("Nat", mult), ("Nat", prime), ("Nat", consts[maskname]), ("Bool", masked)]
 
-        attempt([tag + "Offset", tag + "Mult", tag + "Prime", tag + "Mask"], fnv)
+        attempt([tag + "Offset", tag + "Mult", tag + "Prime", tag + "Mask", tag + "StartMasked"], fnv)
 
     bloom = _parse(repo, "probables/blooms/bloom.py")
     cbf = _parse(repo, "probables/blooms/countingbloom.py")
@@ -316,10 +325,10 @@ def _extract_into(repo, facts, attempt):
     attempt(["expGrowCmp"], lambda: ("Cmp", compare_op(_find_def(exp, "ExpandingBloomFilter", "__check_for_growth"), "elements_added", "est_elements", "expanding growth test")))
     attempt(["rotReadyCmp"], lambda: ("Cmp", compare_op(_find_def(exp, "RotatingBloomFilter", "__rotate_bloom_filter"), "elements_added", "estimated_elements", "rotating ready test")))
     attempt(["rotRoomCmp"], lambda: ("Cmp", compare_op(_find_def(exp, "RotatingBloomFilter", "__rotate_bloom_filter"), "current_queue_size", "_queue_size", "rotating room test")))
-    attempt(["cmsAddClampCmp"], lambda: ("Cmp", compare_op(_find_def(cms, "CountMinSketch", "add_alt"), "val", "INT32_T_MAX", "cms add clamp")))
-    attempt(["cmsRemoveKeepCmp"], lambda: ("Cmp", compare_op(_find_def(cms, "CountMinSketch", "remove_alt"), "val", "INT32_T_MIN", "cms remove clamp")))
+    attempt(["cmsAddClampCmp"], lambda: ("Cmp", compare_op(_find_def(cms, "CountMinSketch", "add_alt"), None, "INT32_T_MAX", "cms add clamp")))
+    attempt(["cmsRemoveKeepCmp"], lambda: ("Cmp", compare_op(_find_def(cms, "CountMinSketch", "remove_alt"), None, "INT32_T_MIN", "cms remove clamp")))
     attempt(["cmsTotalMaxCmp"], lambda: ("Cmp", compare_op(_find_def(cms, "CountMinSketch", "add_alt"), "elements_added", "INT64_T_MAX", "cms total clamp")))
-    attempt(["cbfAddClampCmp"], lambda: ("Cmp", compare_op(_find_def(cbf, "CountingBloomFilter", "add_alt"), "v", "UINT32_T_MAX", "cbf add clamp")))
+    attempt(["cbfAddClampCmp"], lambda: ("Cmp", compare_op(_find_def(cbf, "CountingBloomFilter", "add_alt"), None, "UINT32_T_MAX", "cbf add clamp")))
     attempt(["qfResizeCmp"], lambda: ("Cmp", compare_op(_find_def(qf, "QuotientFilter", "add_alt"), "load_factor", "_max_load_factor", "qf auto-resize test")))
     def qf_load():
         mlf = self_attr_assign(_find_def(qf, "QuotientFilter", "__set_params"), "_max_load_factor")
@@ -377,6 +386,8 @@ def render(facts, fallback=None):
             out.append(f"def {name} : Layout := {lean_layout(val)}")
         elif kind == "Cmp":
             out.append(f"def {name} : Cmp := .{val}")
+        elif kind == "Bool":
+            out.append(f"def {name} : Bool := {'true' if val else 'false'}")
         elif kind == "Float":
             fr = Fraction(val)
             out.append(f"/-- the double {val!r} -/")
